@@ -10,7 +10,7 @@ RULE = ("all well-formed sequences on the tick lattice (pairs over the full latt
         "notes + 1-2 signature events on every tick incl. boundaries and the final tick, cap variants) x all capacity "
         "lists of length 1..3 over {2,3,5} + lists longer than the sequence; distinct = distinct (notes, events, dur, "
         "capacities, build); non-trivial = a note crosses a boundary or an event sits on one")
-SCALE = ('16-120 notes under 8 capacity lists; four-channel chorales of 45/100/250 beats (eight note messages on every boundary tick) with 0..8 leading events shifting every message index, 5 capacity lists; one call returning 1320 pieces')
+SCALE = ('16-120 notes under 8 capacity lists; four-channel chorales of 45/100/250 beats (eight note messages on every boundary tick) with 0..8 leading events shifting every message index, 5 capacity lists; one call returning 1320 pieces; controllers and program changes in the event family; two-channel cases repeated in the librarys canonical stored order; capacities handed over as tuple / generator / iterator / map / numpy array every 6th case; numpy integer ticks every 5th case')
 ASSUMPTIONS = ["source sequences are well-formed with integer ticks (property precondition)"]
 REQUIRED_FLAGS = ["capacities_not_a_list", "canonical_stored_order", "after_history", "note_crosses_two_boundaries", "event_on_boundary", "event_on_final_tick", "same_pitch_two_channels",
                   "remainder_piece", "capacities_longer_than_sequence", "trailing_rest", "leading_rest"]
